@@ -103,15 +103,15 @@ Definition ex_opts : list opt :=
    WithRefreshTokenRotation; WithPAR 60%Z; WithTokenIntrospection; WithTokenLifetime 300%Z].
 Definition ex_client : client :=
   mkClient 1 false [GAuthorizationCode; GRefreshToken] ["code"] ["https://c1.example/cb"] "openid email"
-           CibaNone false false false false false false false 0 false.
+           CibaNone false false false false false false false 0 false None.
 Definition ex_ops : list op :=
-  [OpPar (mkPReq (mkCred 1 true) (mkParams 0 "https://c1.example/cb" "" "code" "openid email" "st-1" "" PkEmpty "" 0 "" 0 "" []) (mkBind None 0));
-   OpAuthorize (mkAReq 1 (mkParams 38 "" "" "code" "openid email" "outer" "" PkEmpty "" 0 "" 0 "" []) true PolInProgress);
+  [OpPar (mkPReq (mkCred 1 true) (mkParams 0 "https://c1.example/cb" "" "code" "openid email" "st-1" "" PkEmpty "" 0 "" 0 "" [] None) (mkBind None 0));
+   OpAuthorize (mkAReq 1 (mkParams 38 "" "" "code" "openid email" "outer" "" PkEmpty "" 0 "" 0 "" [] None) true PolInProgress);
    OpCallback (mkCbReq 69 PolInProgress);
-   OpCallback (mkCbReq 69 (PolSuccess "alice" "openid email" []));
-   OpToken GAuthorizationCode (mkTReq (mkCred 1 true) (mkBind None 0) "" 132 "https://c1.example/cb" 0 PkEmpty 0 HgOk BaApprove [] AsNone);
-   OpToken GRefreshToken (mkTReq (mkCred 1 true) (mkBind None 0) "openid" 0 "" 163 PkEmpty 0 HgDeny BaApprove [] AsNone);
-   OpToken GRefreshToken (mkTReq (mkCred 1 true) (mkBind None 0) "openid" 0 "" 163 PkEmpty 0 HgOk BaApprove [] AsNone);
+   OpCallback (mkCbReq 69 (PolSuccess "alice" "openid email" [] []));
+   OpToken GAuthorizationCode (mkTReq (mkCred 1 true) (mkBind None 0) "" 132 "https://c1.example/cb" 0 PkEmpty 0 HgOk BaApprove [] AsNone None);
+   OpToken GRefreshToken (mkTReq (mkCred 1 true) (mkBind None 0) "openid" 0 "" 163 PkEmpty 0 HgDeny BaApprove [] AsNone None);
+   OpToken GRefreshToken (mkTReq (mkCred 1 true) (mkBind None 0) "openid" 0 "" 163 PkEmpty 0 HgOk BaApprove [] AsNone None);
    OpIntrospect (mkQReq (mkCred 1 true) (PExact 225) true)].
 Definition ex_world : option world :=
   match build POpenID ex_opts with Some cfg => Some (mkWorld cfg []) | None => None end.
@@ -120,7 +120,7 @@ Example history_with_touches :
   match ex_world with
   | Some w => run_alias_trace w [ex_client] ex_ops = run w [ex_client] ex_ops /\
               map is_tokens (run w [ex_client] ex_ops) = [false; false; false; false; true; false; true; false] /\
-              ~ no_touch (refresh_grant w 6 0%Z (mkTReq (mkCred 1 true) (mkBind None 0) "openid" 0 "" 163 PkEmpty 0 HgOk BaApprove [] AsNone))
+              ~ no_touch (refresh_grant w 6 0%Z (mkTReq (mkCred 1 true) (mkBind None 0) "openid" 0 "" 163 PkEmpty 0 HgOk BaApprove [] AsNone None))
   | None => False
   end.
 Proof. vm_compute. repeat split. intros H. exact (H (RClient ex_client) (RGSess c18_g0)). Qed.
